@@ -21,7 +21,7 @@ RULE = ("Hypothesis histories: graph x constructor arguments x a sequence of <=3
         "text (ShExC byte for byte, SHACL graph-isomorphic), file bytes == string, the caller's namespaces dict unchanged.  "
         "Non-trivial: >=2 calls differing in threshold/format/sink, or output > 5 000 lines; distinct by SHA-1 of the case.")
 ASSUMPTIONS = ["rdflib.compare.isomorphic for SHACL graphs (rdflib's Turtle serialisation orders blank nodes by random ids)"]
-BUDGET = {"quick": {"examples": 3200, "wall": 200}, "thorough": {"examples": 60000, "wall": 5400}}
+BUDGET = {"quick": {"examples": 6400, "wall": 200}, "thorough": {"examples": 60000, "wall": 5400}}
 FLOORS = {"nontrivial": 0.15, "big-output": 0.01, "second-shaper": 0.1, "over-5000-lines": 0.005}
 
 
@@ -37,9 +37,11 @@ def big_graph(n_classes):
 def cases(draw, tier):
     size = draw(st.sampled_from(["small"] * 38 + ["big1", "big2"]))
     via_rdflib = size == "small" and draw(st.integers(0, 4)) == 0
+    dmi = draw(st.integers(0, 3)) == 0
+    urn = dmi and size == "small" and draw(st.booleans())     # stems that end in ':' (urn:isbn:...), recomputed by later calls
     if size == "small":
         # (an in-memory rdflib Graph can hold what the line-based readers never produce: literals with real line breaks)
-        g = draw(gg.general(unicode_iris=draw(st.integers(0, 3)) == 0, quirks=draw(gg.quirk_set(one_in=4)), bnodes=not via_rdflib,
+        g = draw(gg.general(unicode_iris=draw(st.integers(0, 3)) == 0, quirks=draw(gg.quirk_set(one_in=4)) + (["urn_nodes"] if urn else []), bnodes=not via_rdflib,
                             lit_kinds=(gg.LIT_KINDS + ["multiline", "multiline"]) if via_rdflib else None))
     else:
         g = {"big": 800 if size == "big1" else 1500}
@@ -53,7 +55,7 @@ def cases(draw, tier):
         cfg["inverse_paths"] = True
     if draw(st.integers(0, 3)) == 0:
         cfg["examples_mode"] = draw(st.sampled_from(["shape", "cons", "all"]))
-    if draw(st.integers(0, 3)) == 0:
+    if dmi:
         cfg["detect_minimal_iri"] = True
     ns = draw(st.sampled_from([None, {"http://ex.org/": "ex"}, {"http://ex.org/": "", "http://ex.org/ns/": "ns"},
                                {"http://www.w3.org/2001/XMLSchema#": "xsd", RDF: "rdf"}]))
@@ -72,6 +74,11 @@ def cases(draw, tier):
         # the same call before and after an unrelated Shaper with ANOTHER precision was built and used
         first = next((o for o in ops if o[0] == "shex"), ["shex", "ShEx", "string", 0])
         ops = [list(first), ["other_shaper", (cfg["decimals"] % 4) + 1, draw(st.sampled_from(["ratio", "mixed"]))], list(first)]
+    if dmi and size == "small" and draw(st.booleans()):
+        # the shapes are computed again (another threshold) and again: the stored stem must not wear off
+        t_a, t_b = draw(st.sampled_from([(0, 0.5), (0.5, 0), (0, 1), (1, 0.5)]))
+        fmt_ = draw(st.sampled_from(["ShEx", "ShEx", "Shacl"]))
+        ops = [["shex", "ShEx", "string", t_a], ["shex", fmt_, "string", t_b], ["shex", "ShEx", "string", t_a]]
     if via_rdflib and draw(st.booleans()):
         # the same call made twice, with examples: annotations are added to the cached shapes by the serializer
         cfg["examples_mode"] = draw(st.sampled_from(["cons", "all"]))
